@@ -49,8 +49,8 @@ def lane_dir(lane):
 
 def _base_cmd(harness, lane, stubbing, features):
     cmd = ["cargo", "kani", "--harness", harness, "--exact", "--target-dir", lane_dir(lane)]
-    if stubbing:
-        cmd += ["-Z", "stubbing"]
+    # always on: harmless for harnesses without stub attributes, required for those with
+    cmd += ["-Z", "stubbing"]
     if features:
         cmd += ["--features", features]
     return cmd
